@@ -211,7 +211,13 @@ impl Family for A1 {
                 Mode::Key { s_priv, .. } => Some(pubkey_of(&s_priv.a32())),
                 _ => None,
             };
-            match reference_file(&s.mode, &pt, &read_sizes, &mut scrypt) {
+            let consumed: usize = read_sizes.iter().sum();
+            if consumed != pt.len() {
+                // success reported although the source was not read to its end: the file cannot hold P
+                out.violations.push(viol(rt_prop, "plaintext_not_consumed", format!("encryption returned Ok after reading {} of {} plaintext bytes (read sizes {:?}..)", consumed, pt.len(), &read_sizes[..read_sizes.len().min(6)])));
+                out.violations.push(viol("C06", "plaintext_not_consumed", format!("the file covers {} of {} plaintext bytes for the recorded read sizes", consumed, pt.len())));
+            }
+            match if consumed == pt.len() { reference_file(&s.mode, &pt, &read_sizes, &mut scrypt) } else { reference_file(&s.mode, &pt[..consumed], &read_sizes, &mut scrypt) } {
                 Some(rfile) => {
                     out.count("probe.c06_byte_compare", 1);
                     if rfile != ct {
